@@ -111,3 +111,28 @@ Proof.
   cbn [st0 s_nodes node_rows lookup find].
   apply history_independent; [|exact HD]. apply flat_map_perm. exact HP.
 Qed.
+
+Lemma run_edges_ok ops : forall st, wf st -> Inv st -> edges_ok st -> Forall op_ok ops -> edges_ok (run st ops).
+Proof.
+  induction ops as [|o ops IH]; intros st W HI HO H1; cbn [run]; [exact HO|].
+  inversion H1 as [|? ? Ho Hos]; subst. destruct (handle_inv st o W HI Ho) as [W' HI'].
+  apply IH; try assumption.
+  destruct o as [i pts|i p pts]; cbn [handle].
+  - destruct (node_points st i pts) as [st'|e] eqn:E; cbn [state_of fst]; [|exact HO].
+    eapply node_points_edges_ok; eassumption.
+  - destruct Ho as [Hp Hi]. destruct (edge_points st i p pts) as [st'|e] eqn:E; cbn [state_of fst]; [|exact HO].
+    apply (edge_points_edge_rows st i p pts st' W HO Hp E).
+Qed.
+
+(* the same for edge points: whatever requests follow, the point read for an identity of an edge
+   is never replaced by an older one *)
+Theorem monotone_reads_edge st ops1 ops2 par id t k :
+  wf st -> Inv st -> edges_ok st -> Forall op_ok ops1 -> Forall op_ok ops2 ->
+  ole (lookup (edge_rows (run st ops1) par id) t k)
+      (lookup (edge_rows (run st (ops1 ++ ops2)) par id) t k).
+Proof.
+  intros W HI HO H1 H2. rewrite run_app.
+  destruct (run_inv ops1 st W HI H1) as [W1 HI1].
+  rewrite (newest_wins_edge ops2 (run st ops1) par id t k W1 HI1 (run_edges_ok ops1 st W HI HO H1) H2).
+  apply fold_newer_mono.
+Qed.
